@@ -350,7 +350,7 @@ def _unshim(t):
 def b_isinstance(x, t):
     t = _unshim(t)
     ts = t if isinstance(t, tuple) else (t,)
-    if isinstance(x, SymStr):
+    if isinstance(x, SymStr) or getattr(x, "__symstr_like__", False):
         return str in ts or object in ts
     if isinstance(x, SymInt):
         return int in ts or object in ts
